@@ -5,6 +5,7 @@ From Coq Require Import List Arith Bool.
 From LokyV Require Import Lib.LedgerLib Lib.PoolLib Gen.Ledger Gen.Pool Model.Pool Proofs.PoolThm.
 From LokyV Require Lib.WorkerLib Gen.Worker Proofs.WorkerThm.
 From LokyV Require Lib.ExitLib Gen.Exit Proofs.ExitThm.
+From LokyV Require Lib.ResizeLib Gen.Resize Model.Watch Proofs.WatchThm.
 Import ListNotations.
 
 (* at every point of every interleaving of submit / shutdown / deaths / idle exits / completions with the manager walking its lists
@@ -69,6 +70,24 @@ Proof.
   repeat split; try assumption. apply WorkerThm.iteration_never_stuck.
 Qed.
 Print Assumptions C02_worker_never_leaves_silently.
+
+(* ---- every registered worker is watched (Model/Watch.v; finding H13, fixed) ----
+   the manager notices a death through the sentinels it waits on, a list it rebuilds each time it goes to sleep.  submit() and
+   _resize() register new workers from other threads; they write the wake-up byte AFTER the registration (the two orders are read off
+   submit_prog and resize_prog).  Hence: whenever the manager sleeps with nothing on its way to wake it and no submit / resize in
+   progress, no registered worker is missing from its list -- any death will be noticed.  On the pinned source submit() woke the
+   manager first: the worker re-started for the first task after an idle period was not watched, and a crash of that task hung the
+   future for ever (20 of 20 real runs). *)
+Theorem C02_every_registered_worker_is_watched :
+  forall es, let s := Watch.run es Watch.wt0 in Watch.quiet s = true -> Watch.unw s = 0.
+Proof. exact WatchThm.every_registered_worker_is_watched. Qed.
+Print Assumptions C02_every_registered_worker_is_watched.
+
+Example C02_h13_wake_up_before_the_spawn :
+  let s := fold_left (Watch.step_with [Watch.UWake; Watch.USpawn] [])
+             [Watch.MgrSnapshot; Watch.SubmitBegin; Watch.UserStep 0; Watch.MgrWake; Watch.MgrSnapshot; Watch.UserStep 1] Watch.wt0 in
+  Watch.quiet s = true /\ Watch.unw s = 1.
+Proof. vm_compute. split; reflexivity. Qed.
 
 From Coq Require Import String ZArith.
 
